@@ -1617,8 +1617,196 @@ def stream_large(ctx):
     return st
 
 
+# ---------------------------------------------------------------- vector dtypes
+
+VEC_DTYPES = ['bool', 'uint8', 'uint16', 'uint32', 'uint64', 'int8', 'int16', 'int32', 'int64',
+              'float16', 'float32', 'float64', 'complex64', 'complex128']
+
+
+def f06c_class(op, dtype_name):
+    """finding F06c: integer-dtype vector, and a term without Y / Z whose coefficient is integer-typed:
+    `coefficient * numpy.concatenate(vecs)` is then evaluated in the vector's integer dtype and wraps"""
+    import numpy
+    if numpy.dtype(dtype_name).kind not in 'iu':
+        return False
+    for t, c in op.terms.items():
+        if all(a == 'X' for _, a in t) and isinstance(c, (int, numpy.integer)) and not isinstance(c, bool):
+            return True
+    return False
+
+
+def stream_vector_dtypes(ctx):
+    import numpy
+    of = ctx.of
+    from openfermion.linalg import linear_qubit_operator as lq
+    Q = of.QubitOperator
+    st = Stream('vector-dtypes', 'LinearQubitOperator (`*`, .matvec, .dot, expectation, variance) and '
+                'ParallelLinearQubitOperator (fake pool) on vectors of every numpy dtype (bool, uint8..uint64, int8..int64 '
+                'incl. the extreme values -128 / 255 / 65535 / 2^32-1 (64-bit entries up to 2^40 so that float64 stays exact), float16 / float32 / float64, complex64 / complex128) '
+                'crossed with X-only, Y-only, Z-only, identity and mixed operators with int / float / complex coefficients '
+                'on non-zero entries; result dtype must be complex128; compared EXACTLY with the Spec matrix-vector '
+                'product and with the Model; distinct = distinct (operator, dtype, vector, call)')
+    B = Batch(ctx)
+    rng = rng_for(ctx.seed, 'c06-vdtypes')
+    reps = budget(ctx.tier, 2, 12)
+    if ctx.drift:
+        reps = max(reps, 4)
+
+    def vec(dt, dim):
+        d = numpy.dtype(dt)
+        if d.kind == 'b':
+            vals = [True] + [rng.random() < 0.6 for _ in range(dim - 1)]
+        elif d.kind in 'iu':
+            info = numpy.iinfo(d)
+            big = min(info.max, 2 ** 40 + 3)
+            pool = [info.max if info.max <= 2 ** 32 else 2 ** 40, big, 1, 2, 3, 200 if info.max >= 200 else 100]
+            if d.kind == 'i':
+                pool += [info.min if info.min >= -2 ** 31 else -(2 ** 40), -1, -3]
+            vals = [rng.choice(pool) for _ in range(dim)]
+            vals[0] = pool[0]
+            if d.kind == 'i':
+                vals[-1] = pool[6]
+        elif d.kind == 'f':
+            vals = [rng.choice([-3, -1, -0.5, 0.5, 1, 2, 3]) for _ in range(dim)]
+        else:
+            vals = [complex(rng.choice([-2, -1, 0.5, 1, 2]), rng.choice([-1, -0.5, 0.5, 1])) for _ in range(dim)]
+        rng.shuffle(vals)
+        return numpy.array(vals, dtype=d)
+
+    def coeff(kind):
+        if kind == 'int':
+            return rng.choice([-3, -1, 1, 2, 3])
+        if kind == 'float':
+            return rng.choice([-1.5, -0.5, 0.5, 1.0, 2.0, 2.5])
+        return complex(rng.choice([-1, 0.5, 1, 2]), rng.choice([-1, -0.5, 0.5, 1]))
+
+    def make_op(family, n):
+        op = Q()
+        if family == 'identity':
+            op.terms[()] = coeff(rng.choice(['int', 'float', 'complex']))
+            if rng.random() < 0.5:
+                op.terms[((n - 1, 'Z'),)] = coeff('float')
+            return op
+        letters = {'X': 'X', 'Y': 'Y', 'Z': 'Z', 'mixed': 'XYZ'}[family]
+        for _ in range(rng.randint(1, 3)):
+            qs = sorted(rng.sample(range(n), rng.randint(1, n)))
+            t = tuple((q, rng.choice(letters)) for q in qs)
+            op.terms[t] = coeff(rng.choice(['int', 'float', 'complex']))
+        if family == 'mixed' and rng.random() < 0.5:
+            op.terms[()] = coeff('int')
+        return op
+
+    class Opt(lq.LinearQubitOperatorOptions):
+        def get_pool(self, num=None):
+            return FakePool(list(range(num or 0))[::-1])
+
+    for rep in range(reps):
+        for dt in VEC_DTYPES:
+            for family in ('X', 'Y', 'Z', 'identity', 'mixed'):
+                n = rng.randint(1, 3)
+                op = make_op(family, n)
+                nq = max(of.count_qubits(op), 1) if rng.random() < 0.7 else n
+                nq = max(nq, of.count_qubits(op))
+                x = vec(dt, 2 ** nq)
+                jop = enc_op('qubit', op.terms)
+                known_class = f06c_class(op, dt)
+                base = {'a': jop, 'n_qubits': nq, 'family': family, 'x_dtype': dt, 'x': [str(v) for v in x.tolist()],
+                        'coefficient_types': sorted({type(c).__name__ for c in op.terms.values()}),
+                        'f06c_class': known_class}
+                x0 = x.copy()
+                calls = [('LinearQubitOperator * x', lambda: of.LinearQubitOperator(op, nq) * x),
+                         ('LinearQubitOperator.matvec', lambda: of.LinearQubitOperator(op, nq).matvec(x)),
+                         ('LinearQubitOperator.dot', lambda: of.LinearQubitOperator(op, nq).dot(x)),
+                         ('ParallelLinearQubitOperator * x', lambda: of.ParallelLinearQubitOperator(op, nq, Opt(processes=2)) * x)]
+                results = []
+                for name, f in calls:
+                    case = dict(base, fn=name)
+                    st.case(case)
+                    st.count('%s:%s' % (dt, family))
+                    kind, y = safe(f)
+                    if kind == 'err':
+                        st.violate('vector-dtype: %s raised %s' % (name, y.split(':')[0]), case, {'error': y})
+                        continue
+                    y = numpy.asarray(y)
+                    if y.shape != x.shape:
+                        st.violate('vector-dtype: %s returned shape %s' % (name, y.shape), case, None)
+                        continue
+                    if len(op.terms) and y.dtype != numpy.complex128:
+                        st.violate('vector-dtype: %s returned dtype %s, not complex128' % (name, y.dtype), case, None)
+                    results.append((name, case, [fr(v) for v in y]))
+                if not numpy.array_equal(x, x0):
+                    st.violate('vector-dtype: the input vector was modified', base, None)
+                xj = vec_j(x.tolist())
+
+                def cbs(s_, results=results):
+                    st.count('oracle:spec-matvec')
+                    want = j_vec(s_)
+                    for name, case, ye in results:
+                        if ye != want:
+                            bad = [i for i in range(len(want)) if ye[i] != want[i]][:4]
+                            st.violate('vector-dtype: %s != (matrix of the operator) x' % name, case,
+                                       {'indices': bad, 'got': [str(ye[i]) for i in bad], 'want': [str(want[i]) for i in bad],
+                                        'f06c_class': case['f06c_class']})
+                B.ask({'op': 'c06.spec_matvec', 'alg': 'qubit', 'n': nq, 'a': jop, 'x': xj}, cbs)
+
+                def cbm(m, results=results):
+                    want = j_vec(m)
+                    for name, case, ye in results[:1]:
+                        if ye != want and not case['f06c_class']:
+                            st.disagree('matvec (Model is dtype-free: the result is complex whatever the input dtype)',
+                                        case, [str(v) for v in ye[:6]], [str(v) for v in want[:6]])
+                B.ask({'op': 'c06.matvec', 'a': jop, 'x': xj}, cbm)
+                # expectation / variance through the linear operator (exact integers / dyadics)
+                L = of.LinearQubitOperator(op, nq)
+                xs = [fr(v) for v in x.tolist()]
+
+                def cbe(s_, xs=xs, L=L, x=x, base=base, op=op, nq=nq, jop=jop):
+                    mx = j_vec(s_)
+                    # exact x^dagger M x; skipped when the partial sums leave the exact range of float64
+                    re = sum((a[0] * b[0] + a[1] * b[1] for a, b in zip(xs, mx)), Fraction(0))
+                    im = sum((a[0] * b[1] - a[1] * b[0] for a, b in zip(xs, mx)), Fraction(0))
+                    mag = sum((abs(a[0]) + abs(a[1])) * (abs(b[0]) + abs(b[1])) for a, b in zip(xs, mx))
+                    if mag > 2 ** 50:
+                        st.discards += 1
+                        return
+                    e1 = complex(float(re), float(im))
+                    kind, got = safe(of.expectation, L, x)
+                    st.float_comparisons += 1
+                    case = dict(base, fn='expectation(LinearQubitOperator, x)')
+                    st.case(case)
+                    if kind == 'err':
+                        st.violate('vector-dtype: expectation raised %s' % got.split(':')[0], case, {'error': got})
+                    elif not abs(complex(got) - e1) <= 1e-9 * max(1.0, abs(e1)):
+                        st.violate('vector-dtype: expectation(LinearQubitOperator, x) != x^dagger M x', case,
+                                   {'got': str(got), 'want': str(e1), 'f06c_class': base['f06c_class']})
+                B.ask({'op': 'c06.spec_matvec', 'alg': 'qubit', 'n': nq, 'a': jop, 'x': xj}, cbe)
+    B.flush()
+    return st
+
+
 def run(ctx):
-    return [stream_sparse(ctx), stream_linear(ctx), stream_boson(ctx), stream_numeric(ctx), stream_hardening(ctx), stream_large(ctx)]
+    return [stream_sparse(ctx), stream_linear(ctx), stream_boson(ctx), stream_numeric(ctx), stream_hardening(ctx), stream_large(ctx), stream_vector_dtypes(ctx)]
+
+
+def classify(v):
+    """F06c: integer-dtype vector and an integer-typed coefficient on a term without Y / Z: the product
+    `coefficient * numpy.concatenate(vecs)` is evaluated in the vector's integer dtype and wraps around."""
+    if v.get('what', '').startswith('vector-dtype:') and ' != ' in v.get('what', ''):
+        if (v.get('input') or {}).get('f06c_class') and (v.get('detail') or {}).get('f06c_class'):
+            return 'F06c'
+    return None
+
+
+def probe_known(ctx, k):
+    if k.get('id') != 'F06c':
+        return False
+    import numpy
+    of = ctx.of
+    try:
+        y = of.LinearQubitOperator(of.QubitOperator('X0', 2), 1) * numpy.array([200, 3], dtype='uint8')
+        return not (complex(y[1]) == 400 and complex(y[0]) == 6)
+    except Exception:
+        return True
 
 
 def replay(ctx, payload):
